@@ -54,8 +54,14 @@ frag = st.lists(st.one_of(st.integers(1, 7), st.integers(1, 64), st.sampled_from
 @st.composite
 def rt_case(draw):
     def one():
-        return {"type": draw(u8), "flags": draw(u16), "seq": draw(u16), "ser": draw(u8), "payload": draw(payloads),
-                "ann": draw(annotations), "corr": draw(corr_ids)}
+        m = {"type": draw(u8), "flags": draw(u16), "seq": draw(u16), "ser": draw(u8), "payload": draw(payloads),
+             "ann": draw(annotations), "corr": draw(corr_ids)}
+        pt = draw(st.sampled_from(["bytes"] * 6 + ["bytearray", "memoryview", "memoryview:H", "memoryview:I", "memoryview:array"]))
+        if pt != "bytes":
+            # the payload handed to the sender as another kind of buffer (what counts is all of its bytes)
+            m["ptype"] = pt
+            m["payload"] = bytes(_annval(m["payload"], pt))
+        return m
     c = one()
     c["kind"] = "rt"
     c["compress"] = draw(st.booleans())
@@ -144,7 +150,7 @@ def _encode(m, compress, maxsize=None):
     from Pyro5 import protocol
     with _Cfg(compress, maxsize, m["corr"]):
         anns = {k: _annval(v, t) for k, v, t in m["ann"]}
-        return protocol.SendingMessage(m["type"], m["flags"], m["seq"], m["ser"], m["payload"], annotations=anns)
+        return protocol.SendingMessage(m["type"], m["flags"], m["seq"], m["ser"], _annval(m["payload"], m.get("ptype", "bytes")), annotations=anns)
 
 
 def _compare(m, dec, where):
